@@ -1,6 +1,6 @@
 // Hook H8 (ipa-core/src/net/mod.rs): `http_serde`, `server` and `test` are private modules of `net`.
 
-#[cfg(not(feature = "shuttle"))]
+#[cfg(all(not(feature = "shuttle"), feature = "descriptive-gate"))]
 pub(crate) mod c09q {
     include!(concat!(env!("IPA_VERIF_DIR"), "/c09q.rs"));
 }
